@@ -796,8 +796,11 @@ func (c *Cursor) Max(ctx context.Context) error {
 	c.path = c.path[:len(c.path)-1]
 	for {
 		if len(node.Link) == 0 || node.Link[len(node.Link)-1] == nil {
-			c.path = append(c.path,
-				pathEntry{node, len(node.Value) - 1})
+			if len(node.Value) > 0 {
+				c.path = append(c.path,
+					pathEntry{node, len(node.Value) - 1})
+			}
+			// an empty tree has no maximum: the cursor is left without a position
 			return nil
 		} else {
 			c.path = append(c.path,
